@@ -295,7 +295,8 @@ class C17(flow.Spec):
             'byte streams biased to \\r \\n \\b \\t, newline-terminated short lines and long printable runs that wrap and scroll; cursor moves to '
             '{0,1,edge,edge+1,2^31,2^32-1,random}; a separate stream outside the quantifier (writes before attach, re-attach, zero-sized console, '
             '32-bit wrap of height+scrollback or of the buffer size) is compared model-vs-code only; non-trivial = in-domain history that stores at least one byte')
-    assumptions = ['the console is seen through its interface (Dimensions, DefaultColors, Write, Fill, Scroll); its drivers are C19',
+    assumptions = ['translator gen/gotrans + Lib/GoOps.v for the translation tie of VT methods (Props/C17_trans.v); the console reference is modelled there as "is non-nil"',
+                   'the console is seen through its interface (Dimensions, DefaultColors, Write, Fill, Scroll); its drivers are C19',
                    'the terminal is attached once, before use (as kernel/hal does); re-attachment is outside the property and compared model-vs-code only',
                    'the three stores of doWrite and the byte loops of lf are modelled with bounds-checked list primitives; '
                    'the scroll loop is modelled as one pass (proved equal to the byte-by-byte loop in Tty/VtLoops.v)']
